@@ -22,9 +22,18 @@ oracle:         the FULL FAULT MATRIX on the real code (both tiers, complete): X
                 mark, UTF-16 LE / BE with byte order mark - with, without encoding declaration, without XML declaration -,
                 ISO-8859-1 and windows-1252 with a non-ASCII byte): the call must fail with a defusedxml refusal or a
                 UnicodeError; which of the two is the correspondence with `readE` (drv_entity `readenc`).
+                AND FOR EVERY SHAPE OF THE PROLOG (run_prologs, harness/prologs.py: entity literals, comments and processing
+                instructions of the prolog that hold `<name`, `"`, `'`, `>`, `]` wherever the XML grammar allows - the input class
+                that exposed the defect repaired in /repo e859a9c: `__fixXmlPart` spliced its xmlns declarations into an entity
+                literal, the parse error was only printed, load() returned) x entry point x member, embedded objects included.
+proof (Prep):   lean/OdfModel/Props/C13Prep.lean: the hypothesis `Prep` of the refusal theorems instantiated with the model of
+                `__fixXmlPart` (fix_keeps_prolog_at, fix_keeps_doctype_facts, fixed_text_refused, prepOfFix, C13_full_fix) through
+                Props/C05.lean fix_prolog_untouched; the model is tied to the code by the `fixxml` correspondence of harness/c05.py
+                and by PrepCheck below (strict on every prolog shape: the function must return the text unchanged).
 """
 import io, os, re, sys, zipfile, tempfile, shutil, json, contextlib
 from common import enc_str, dec_str, InfraError, REPO
+import prologs
 
 # --------------------------------------------------------------------------------------------------
 # a small valid package, written by hand (no odfpy involved), with a text marker and an attribute marker
@@ -298,7 +307,8 @@ class PrepCheck(object):
                         chk.corr_diff({'transformer': n}, 'not found in odf.opendocument', 'a module-level function',
                                       'text pre-processing named by the inventory cannot be exercised')
 
-    def check(self, case, member, text):
+    def check(self, case, member, text, strict=False):
+        """strict: the text declares every prefix the transformer looks for in its root start tag: it must come back unchanged"""
         if member == MANIFEST or not self.fns:
             return
         key = hash(text)
@@ -322,7 +332,7 @@ class PrepCheck(object):
         decls = [d for d in re.findall(u'<!DOCTYPE[^\\[>]*(?:\\[.*?\\]\\s*)?>|<!ENTITY[^>]*>', text[:root], re.S)]
         kept = all(out.count(d) == text.count(d) for d in decls)
         plain = (u'<x' not in text[:root])
-        if not insert_only or not kept or (plain and out != text):
+        if not insert_only or not kept or ((plain or strict) and out != text):
             self.bad += 1
             i = next((j for j in range(min(len(out), len(text))) if out[j] != text[j]), min(len(out), len(text)))
             self.chk.corr_diff(case, out[max(0, i - 40):i + 80], text[max(0, i - 40):i + 80],
@@ -731,6 +741,129 @@ def run_paths(chk, drv, numbers):
         shutil.rmtree(tmp, ignore_errors=True)
 
 
+# ---------------------------------------------------------------------------------------------------------------
+# the dimension SHAPE OF THE PROLOG.  The member declares the entity `e`; its prolog is legal XML in which an entity literal, a
+# comment or a processing instruction holds what a text-level pre-processing could take for markup: `<name`, quotes, `>`, `]`, `]>`.
+# What the property says does not depend on it: the entry point takes the member in => the call raises an explicit refusal.
+# ---------------------------------------------------------------------------------------------------------------
+def prolog_package(target, shape, tok):
+    mem = []
+    for name, data in template():
+        if name == target:
+            data = prologs.apply_shape(data.replace(TXT, u'&e;'), DECL, shape, tok.declared)
+        mem.append((name, data))
+    return mem
+
+
+def prolog_cell(chk, drv, tok, watch, pkgargs, parses, prep, ep, m, shape):
+    mem = prolog_package(m, shape, tok)
+    case = {'ep': ep, 'member': m, 'kind': 'ent-text', 'shape': shape}
+    if prep is not None:
+        prep.check(case, m, dict(mem)[m], strict=True)
+    o = observe(ep, build(mem), tok, watch)
+    c = cls(o)
+    part, where = member_class(m)
+    must = parses or required(ep, m, MANIFEST_ENTRIES)
+    chk.count('prolog-cell')
+    chk.count('prolog-cell.' + c + ('' if must else '.member-not-parsed'))
+    for dim, v in zip(('literal', 'subset', 'outer'), shape.split('/')):
+        chk.count('prolog.%s.%s' % (dim, v))
+    chk.case((ep, m, 'prolog:' + shape), nontrivial=bool(must),
+             sample=dict(case, observed=c, exception=o['defused'] or o['exc']) if (len(chk.samples) < 8 and chk.rng.random() < 0.004) else None)
+    sig = '%s:%s@%s:prolog-markup' % (ep, part, where)
+    if o['expanded'] or o['canary']:
+        report(chk, sig, case, 'the result contains the expanded entity text')
+    elif o['touched']:
+        report(chk, sig, case, 'an external resource was opened: %s' % o['touched'][:2])
+    elif must and c != 'forbidden':
+        if o['outcome'] == 'returned':
+            report(chk, sig + ':silent', case, 'the entry point takes this member in, its DOCTYPE declares the entity `e` (prolog shape %s: legal XML with '
+                   '`<name`, quotes, `>`, `]` inside an entity literal / comment / processing instruction), and the call returned normally: no '
+                   'explicit exception%s' % (shape, '; the parse failure was only printed' if o['sax_failed_printed'] else ''))
+        else:
+            report(chk, sig + ':not-explicit', case, 'raised %s, which is not (and does not wrap) a defusedxml refusal' % o['exc'])
+    elif not must and c != 'clean':
+        chk.corr_diff(case, c, 'clean', 'member is not parsed by this entry point yet the call did not return normally')
+    if drv is not None:
+        ans = drv.ask('read %d %s %d %d %s' % (EP_CODE[ep], enc_str(m), 1, 1 if shape.endswith('/system-id') else 0, pkgargs))
+        chk.corr()
+        got = c if c != 'forbidden' else 'forbidden:' + str(o['defused'])
+        want = {'err forbidden-entities': 'forbidden:EntitiesForbidden', 'err forbidden-external': 'forbidden:ExternalReferenceForbidden',
+                'ok clean': 'clean', 'ok expanded': 'expanded'}.get(ans.strip(), ans)
+        if got != want:
+            chk.corr_diff(case, got, ans, 'outcome of the cell (prolog shape %s)' % shape)
+    return o
+
+
+def run_prologs(chk, drv, prep, parsed):
+    """prolog shape x entry point x XML member (main document and every embedded object of the template).  thorough: every cell;
+    quick: every (entry point, member the entry point takes in) with 16 shapes, consecutive pairs walking through all 200 shapes
+    (each shape several times, every value of every dimension with every entry point), members it does not parse with one"""
+    watch = Watch.install()
+    tmp = tempfile.mkdtemp(prefix='c13-')
+    try:
+        tok = Tokens(chk.rng, tmp)
+        pkgargs = model_pkg_args()
+        offset = chk.rng.randrange(len(prologs.SHAPES))
+        n = 0
+        for ep in EPS:
+            for m in XML_MEMBERS:
+                must = bool(parsed.get((ep, m))) or required(ep, m, MANIFEST_ENTRIES)
+                if chk.tier == 'thorough':
+                    names = [s_[0] for s_ in prologs.SHAPES] if must else prologs.quick_slice(n, offset, 8)
+                else:
+                    names = prologs.quick_slice(n, offset, 16 if must else 1)
+                n += 1
+                for shape in names:
+                    prolog_cell(chk, drv, tok, watch, pkgargs, bool(parsed.get((ep, m))), prep, ep, m, shape)
+    finally:
+        watch.needles = []
+        shutil.rmtree(tmp, ignore_errors=True)
+
+
+def run_slow(chk, parsed):
+    """unterminated / very long internal subsets full of comments and processing instructions (prologs.slow_texts): (1) ONE call of the
+    pre-processing may not take longer than prologs.SLOW_LIMIT seconds (probed in a child process: a matcher that backtracks
+    exponentially would hang the reader instead of letting the parser refuse the member); (2) the subset first declares the entity `e`,
+    so the entry point that takes the member in must raise the explicit refusal whatever follows the declaration"""
+    n, slow = prologs.probe_slow(REPO)
+    chk.count('slow-probe-call', n)
+    if slow is not None:
+        name, ent, secs = slow
+        text = dict(prologs.slow_texts(bool(ent))).get(name, u'')
+        report(chk, 'fixxmlpart-slow', {'ep': 'load', 'member': u'content.xml', 'kind': 'ent-unused', 'slow': name, 'entity': ent, 'text': text[:300]},
+               'one call of __fixXmlPart on a %d character text (DOCTYPE whose internal subset does not end, full of comments / processing '
+               'instructions) %s; limit %.1f s: load() hangs instead of handing the member to the refusing parser' %
+               (len(text), ('took %.1f s' % secs) if secs is not None else 'did not return within the budget of the probe', prologs.SLOW_LIMIT))
+        return
+    watch = Watch.install()
+    tmp = tempfile.mkdtemp(prefix='c13-')
+    try:
+        tok = Tokens(chk.rng, tmp)
+        pairs = [(ep, m) for ep in LOADLIKE for m in XML_MEMBERS if m != MANIFEST and parsed.get((ep, m))]
+        off = chk.rng.randrange(len(pairs))
+        for i, (name, text) in enumerate(prologs.slow_texts(True)):
+            ep, m = pairs[(off + 7 * i) % len(pairs)]
+            mem = []
+            for nm, data in template():
+                if nm == m:
+                    assert text.endswith(u'<r/>')
+                    data = DECL.rstrip(u'\n') + text[:-4] + data[len(DECL):]
+                mem.append((nm, data))
+            case = {'ep': ep, 'member': m, 'kind': 'ent-unused', 'slow': name, 'entity': 1}
+            o = observe(ep, build(mem), tok, watch)
+            c = cls(o)
+            chk.count('slow-cell'); chk.count('slow-cell.' + c)
+            chk.case((ep, m, 'slow:' + name), nontrivial=True)
+            part, where = member_class(m)
+            if c != 'forbidden' or o['touched']:
+                report(chk, '%s:%s@%s:unterminated-subset' % (ep, part, where) + ('' if c == 'expanded' else ':silent'), case,
+                       'the internal subset declares the entity `e` and then does not end properly (%s): observed %s %s' % (name, c, o['exc'] or ''))
+    finally:
+        watch.needles = []
+        shutil.rmtree(tmp, ignore_errors=True)
+
+
 LAYOUT_EPS = ['load', 'manifestlist', 'UserFields.list_fields', 'ODF2XHTML.odf2xhtml', 'ODF2MoinMoin']
 
 
@@ -1027,7 +1160,7 @@ def run(chk, replay=None):
     chk.rule = ('every cell of: %d XML members (5 top level, 4 in "Object 1/", 4 in further / long-named / nested sub-documents, and 3 members load() must not parse) x %d injection kinds '
                 'x %d entry points, plus controls (clean, bare DOCTYPE) and a not-well-formed probe per (entry point, member); '
                 'non-trivial = the entry point really parses the member; every parsed (entry point, member) again with the member stored in '
-                '%d other character encodings / byte order mark layouts' % (len(XML_MEMBERS), len(KINDS), len(EPS), len(ENCODINGS)))
+                '%d other character encodings / byte order mark layouts, and with %d prolog shapes (entity literal x other items of the internal subset x items around the DOCTYPE, all legal XML with `<name`, quotes, `>`, `]` inside)' % (len(XML_MEMBERS), len(KINDS), len(EPS), len(ENCODINGS), len(prologs.SHAPES)))
     if replay is not None and 'input' not in replay:
         print('replay: this file records a broken obligation / correspondence without a failing input; run ./check C13')
         return 1
@@ -1038,6 +1171,27 @@ def run(chk, replay=None):
         try:
             tok = Tokens(chk.rng, tmp)
             o = enc_cell(chk, None, tok, watch, None, True, c['ep'], c['member'], c['kind'], c['encoding'], c.get('pos', 'before'))
+        finally:
+            watch.needles = []
+            shutil.rmtree(tmp, ignore_errors=True)
+        print('replay: %s -> %s' % (c, o))
+        return 1 if (chk.failures or chk.known_hits) else 0
+    if replay is not None and 'slow' in replay['input']:
+        n, slow = prologs.probe_slow(REPO)
+        print('replay: probe of __fixXmlPart on prologs.slow_texts(): %d calls in time, first slow call: %s' % (n, slow))
+        if slow is not None:
+            return 1
+        parsed = dict(((ep, m), True) for ep in LOADLIKE for m in XML_MEMBERS)
+        run_slow(chk, parsed)
+        return 1 if (chk.failures or chk.known_hits) else 0
+    if replay is not None and 'shape' in replay['input']:
+        c = replay['input']
+        watch = Watch.install()
+        tmp = tempfile.mkdtemp(prefix='c13-')
+        try:
+            tok = Tokens(chk.rng, tmp)
+            o = prolog_cell(chk, None, tok, watch, None, True, None, c['ep'], c['member'], c['shape'])
+            print('member text: %r' % dict(prolog_package(c['member'], c['shape'], tok))[c['member']][:400])
         finally:
             watch.needles = []
             shutil.rmtree(tmp, ignore_errors=True)
@@ -1091,7 +1245,7 @@ def run(chk, replay=None):
     for s in inv['sites']:
         chk.count('site.' + ('library' if s['library'] else 'script') + '.' + s['origin_name'])
     # 2 prove
-    ok = chk.prove(modules=['OdfModel.Props.C13', 'OdfModel.Props.C13Enc'], drivers=['drv_entity'])
+    ok = chk.prove(modules=['OdfModel.Props.C13', 'OdfModel.Props.C13Enc', 'OdfModel.Props.C13Prep'], drivers=['drv_entity'])
     if not ok:
         chk.lake(['build', 'drv_entity'])
     chk.assumptions.append('C13: behaviour of the two parser kinds (defusedxml raises on an entity declaration / external '
@@ -1113,9 +1267,15 @@ def run(chk, replay=None):
     prep = PrepCheck(chk, inv)
     parsed = {}
     run_matrix(chk, drv, prep=prep, parsed_out=parsed)
-    chk.assumptions.append('C13: the text pre-processing in front of the SAX parser (__fixXmlPart) preserves the DOCTYPE: hypothesis `Prep` '
-                           'of the refusal theorems, validated on every member text of the fault matrix (%d distinct texts, every '
-                           'injection kind x prolog layout)' % len(prep.seen))
+    run_prologs(chk, drv, prep, parsed)
+    run_slow(chk, parsed)
+    chk.assumptions.append('C13: the text pre-processing in front of the SAX parser (__fixXmlPart) preserves the DOCTYPE: `Prep` of the refusal '
+                           'theorems is no longer a bare hypothesis - Props/C13Prep.lean instantiates it with the character-level model of the '
+                           'function (C05 fix_prolog_untouched).  Still assumed there: (a) what expat reports of the DOCTYPE is decided by the '
+                           'text in front of the document element (DoctypeReader.prolog_decides); (b) per text, the prolog the regex of the code '
+                           'finds is the XML prolog (PrologAt, decidable; false only for texts that are not XML in front of the root); (c) model = '
+                           'code: fixxml correspondence of C05 and, here, the real function on every member text of the fault matrix and of '
+                           'the prolog-shape matrix (%d distinct texts; on every prolog shape it must return the text unchanged)' % len(prep.seen))
     run_media(chk, drv)
     run_encodings(chk, drv, parsed)
     chk.assumptions.append('C13: a parser refuses an entity declaration in whatever character encoding the member is written (ParserBehaviour is '
